@@ -400,6 +400,7 @@ Rated(m, s) == IF NoTok(m) THEN Refuse(EAGAIN) ELSE Do(Spend(s, m))
 
 (* ------------------------------ context calls ------------------------------ *)
 CtxRegister == /\ Can("CtxRegister")
+               /\ (InCb => S.ctx.st # "none")      \* (modelling bound: no fresh context while a callback made on behalf of the released one is still executing)
                /\ IF S.ctx.st # "none" THEN Refuse(EEXIST)
                   ELSE Do([S EXCEPT !.ctx = [Ctx0 EXCEPT !.st = "idle"], !.run = 0, !.ret = 0])
 
@@ -704,6 +705,8 @@ C01_RunningCount == Quiescent => S.run = Cardinality({m \in Mods : S.mod[m].st =
 C01_NoHandlerUnlessRunning == \A i \in 1..Len(S.stack) : (S.stack[i].k = "cb" /\ S.stack[i].a = "evt") => S.stack[i].b = 1
 \* C07: no modules without a context; one context
 C07_NoCtxNoModules == S.ctx.st = "none" => Registered(S) = {}
+\* C07: once a context is finalised nothing joins it (the same context: it is neither released nor a fresh one in this step)
+C07_NoJoinAfterFinalize == [][(S.ctx.st # "none" /\ S'.ctx.st # "none" /\ S.ctx.fin /\ S'.ctx.fin) => Registered(S') \subseteq Registered(S)]_vars
 \* C02: payload accounting: an auto-free payload is released exactly when its last copy is gone
 C02_AutoFree == \A p \in 1..MaxPay : /\ (S.pay[p].st = "freed" => S.pay[p].auto /\ S.pay[p].copies = 0)
                                       /\ (S.pay[p].auto /\ S.pay[p].copies = 0 /\ S.pay[p].st # "unused" => S.pay[p].st = "freed")
